@@ -37,6 +37,7 @@ type counterMon struct {
 	logMu  sync.Mutex
 	log    []string // notifications "old>new" in the order the subscribers received them
 	bad    string   // first disagreement between the two subscribers
+	hook   atomic.Pointer[func()] // one-shot: run by the first subscriber inside the value lock (arriveQueued)
 }
 
 func newCounterMon(v int) *counterMon {
@@ -56,6 +57,9 @@ func newCounterMon(v int) *counterMon {
 		m.log = append(m.log, fmt.Sprintf("%d>%d", o, n))
 		order = append(order[:0], 'a')
 		m.logMu.Unlock()
+		if h := m.hook.Swap(nil); h != nil {
+			(*h)()
+		}
 	})
 	second := func(tag byte) func(o, n int) {
 		return func(o, n int) {
@@ -556,6 +560,175 @@ func pushWaitCase(r *hx.Run, rng *hx.Rng, sub uint64, procs int) {
 	if !w.dead {
 		w.releaseAll(r)
 	}
+	r.Sample(r.CaseLines())
+}
+
+// arriveQueued: goroutine a.t makes a call that changes the value; the subscriber notified of that change — it runs
+// inside the value lock — starts the calls of `queued` one after the other, each confirmed queued on the value mutex
+// (writer queue of the RWMutex) before the next one starts, keeps the lock a little longer (beyond the millisecond
+// after which sync.Mutex hands over strictly in arrival order) and returns.  Every queued call has then executed
+// whatever it does *before* taking the lock while the value was still the one a installed, and the calls pass the lock
+// in their arrival order: a read of the value outside the lock is stale by the time the lock is taken.
+func (w *wmWorld) arriveQueued(a arrival, queued []arrival) string {
+	m := w.m.(*counterMon)
+	if w.out == nil {
+		w.out = make([][]int, len(w.actors))
+	}
+	rw := (*sync.RWMutex)(fieldPtr(m.c, "valueMutex"))
+	m.logMu.Lock()
+	log0 := len(m.log)
+	m.logMu.Unlock()
+	before := w.m.value()
+	notQueued := atomic.Int32{}
+	hook := func() {
+		for _, q := range queued {
+			n0 := mutexWaiters(rw)
+			arg, _ := strconv.Atoi(q.arg)
+			qq := q
+			w.pending[q.t] = &qq
+			w.actors[q.t].call(w.m.call(q.op, arg, &w.res[q.t], &w.cb[q.t], &w.out[q.t]))
+			deadline := time.Now().Add(200 * time.Millisecond)
+			for mutexWaiters(rw) <= n0 && time.Now().Before(deadline) {
+				time.Sleep(20 * time.Microsecond)
+			}
+			if mutexWaiters(rw) <= n0 {
+				notQueued.Add(1)
+			}
+		}
+		time.Sleep(1500 * time.Microsecond)
+	}
+	m.hook.Store(&hook)
+	arg, _ := strconv.Atoi(a.arg)
+	aa := a
+	w.pending[a.t] = &aa
+	w.actors[a.t].call(w.m.call(a.op, arg, &w.res[a.t], &w.cb[a.t], &w.out[a.t]))
+	if !settle(w.actors, w.m.waiters) {
+		w.dead = true
+		w.r.Fail("stall", fmt.Sprintf("counter: no quiescence after calls queued behind the subscriber callback of %s; statuses=%s", opLine(a), statuses(w.actors)),
+			sig("api", "Counter."+a.op, "oracle", "stall"))
+	}
+	if m.hook.Swap(nil) != nil {
+		w.r.Count("counter-queued:hook-not-reached")
+	}
+	if notQueued.Load() > 0 {
+		w.r.Count("counter-queued:not-confirmed-queued")
+	}
+	// every value the counter had during this step (the notifications are the exact history of the value)
+	m.logMu.Lock()
+	vals := []int{before}
+	for _, e := range m.log[log0:] {
+		if i := strings.IndexByte(e, '>'); i >= 0 {
+			v, _ := strconv.Atoi(e[i+1:])
+			vals = append(vals, v)
+		}
+	}
+	m.logMu.Unlock()
+	now := w.m.value()
+	for i, act := range w.actors {
+		p := w.pending[i]
+		if p == nil {
+			continue
+		}
+		thr, _ := strconv.Atoi(p.arg)
+		switch act.state.Load() {
+		case stIdle:
+			if p.op == "below" || p.op == "above" {
+				held := false
+				for _, v := range vals {
+					held = held || !mustWait(p.op, thr, v)
+				}
+				if !held {
+					w.r.Fail("wait-early", fmt.Sprintf("counter %s returned although the value only went through %v", opLine(*p), vals),
+						sig("api", "counter."+p.op, "oracle", "returned-without-condition", "schedule", "queued-behind-callback"))
+				}
+			}
+			w.pending[i] = nil
+		case stPanicked:
+			w.dead = true
+			w.r.Fail("unexpected-panic", fmt.Sprintf("counter %s panicked: %s", opLine(*p), act.panicMsg), sig("api", "counter."+p.op, "oracle", "unexpected-panic"))
+			w.pending[i] = nil
+		default:
+			w.blocked = true
+			if !mustWait(p.op, thr, now) && !w.dead {
+				w.r.Fail("wait-lost-wakeup", fmt.Sprintf("counter %s still blocked at quiescence although the value is %d (values of this step: %v; the calls were queued on the value lock behind the subscriber callback of %s)", opLine(*p), now, vals, opLine(a)),
+					sig("api", "counter."+p.op, "oracle", "lost-wakeup", "schedule", "queued-behind-callback"))
+			}
+		}
+	}
+
+	return w.obs()
+}
+
+// queuedCase: a Counter, some sleepers, then a change whose subscriber callback lets 2..4 further calls queue up on the
+// value lock (mutators and waits), then further plain arrivals.
+func queuedCase(r *hx.Run, rng *hx.Rng, sub uint64, fixed []arrival) {
+	n := 5
+	v0 := rng.Range(-2, 2)
+	if fixed != nil {
+		v0 = 0
+	}
+	m := newCounterMon(v0)
+	r.Case(sub)
+	w := &wmWorld{r: r, m: m, pending: make([]*arrival, n), res: make([][]byte, n), cb: make([][]byte, n)}
+	for i := 0; i < n; i++ {
+		w.actors = append(w.actors, newActor())
+	}
+	defer retire(w.actors)
+	r.Line(fmt.Sprintf("wm %d %d counter", n, v0), "ok")
+	var first arrival
+	var queued []arrival
+	if fixed != nil {
+		first, queued = fixed[0], fixed[1:]
+	} else {
+		// an optional sleeper before the step
+		if rng.Bool() {
+			a := arrival{t: 4, op: hx.Pick(rng, []string{"below", "above"}), arg: strconv.Itoa(rng.Range(-3, 6))}
+			r.Line(fmt.Sprintf("w %d %s | %s", a.t, opLine(a), w.arrive(a)), "ok")
+		}
+		cur := m.value()
+		nv := cur
+		for nv == cur {
+			nv = rng.Range(-3, 6)
+		}
+		first = arrival{t: 0, op: "set", arg: strconv.Itoa(nv)}
+		if rng.Chance(1, 3) {
+			first = arrival{t: 0, op: "add", arg: strconv.Itoa(hx.Pick(rng, []int{-2, -1, 1, 2}))}
+		}
+		if w.pending[4] != nil && w.actors[4].state.Load() == stIdle {
+			w.pending[4] = nil
+		}
+		k := rng.Range(2, 3)
+		for t := 1; t <= k; t++ {
+			q := arrival{t: t}
+			switch rng.Intn(4) {
+			case 0:
+				q.op, q.arg = "set", strconv.Itoa(rng.Range(-3, 8))
+			case 1:
+				q.op, q.arg = "add", strconv.Itoa(hx.Pick(rng, []int{-2, -1, -1, 1, 1, 2}))
+			case 2:
+				q.op, q.arg = "below", strconv.Itoa(rng.Range(-2, 8))
+			default:
+				q.op, q.arg = "above", strconv.Itoa(rng.Range(-3, 7))
+			}
+			queued = append(queued, q)
+		}
+		// the last one is a mutator: it passes the lock after the waits queued before it
+		queued[len(queued)-1].op = "add"
+		queued[len(queued)-1].arg = strconv.Itoa(hx.Pick(rng, []int{-2, -1, -1, 1, 1, 2}))
+	}
+	toks := []string{fmt.Sprintf("%d %s", first.t, opLine(first))}
+	key := []string{opLine(first)}
+	for _, q := range queued {
+		toks = append(toks, fmt.Sprintf("%d %s", q.t, opLine(q)))
+		key = append(key, opLine(q))
+	}
+	obs := w.arriveQueued(first, queued)
+	r.Line(fmt.Sprintf("wu %s | %s", strings.Join(toks, " / "), obs), "ok")
+	r.Count("counter-queued-behind-callback")
+	if !w.dead {
+		w.releaseAll(r)
+	}
+	r.Nontrivial("queued:" + strings.Join(key, ","))
 	r.Sample(r.CaseLines())
 }
 
